@@ -196,18 +196,53 @@ impl Case {
             .collect()
     }
 
+    /// the configured generator.  The public builder offers several equivalent routes to one configuration
+    /// (`with_opcode_range` or the two single setters in either order, `with_mutators` or repeated `with_mutator`,
+    /// any order of the builder calls); which route is taken is derived from the case id, so that a builder whose
+    /// effect depends on the route or on the order of the calls shows up as a wrong configuration.
     pub fn generator(&self) -> Generator {
-        let mut g = Generator::new(Version::try_from(self.proto).unwrap())
-            .with_opcode_range(self.min, self.max)
-            .with_mutators(self.mutators())
-            .with_unsafe_mutations(self.unsafe_m)
-            .with_ext_opcodes(self.ext)
-            .with_buffer_opcodes(self.buf);
-        // the builder clamps; out-of-range / NaN rates are part of C09's quantifier
-        let r = f64::from_bits(self.rate_bits);
-        g = g.with_mutation_rate(r);
-        if let Mode::Rand(s) = &self.mode {
-            g = g.with_seed(*s);
+        let mut g = Generator::new(Version::try_from(self.proto).unwrap());
+        let route = self.id % 6;
+        // builder steps: 0 range, 1 mutators, 2 unsafe, 3 ext, 4 buffer, 5 rate, 6 seed
+        let mut order: Vec<usize> = (0..7).collect();
+        if route >= 3 {
+            // a rotation and a reversal are enough to put every step before and after every other one
+            order.rotate_left((self.id % 7) as usize);
+            if self.id % 2 == 1 {
+                order.reverse();
+            }
+        }
+        for step in order {
+            g = match step {
+                0 => match route % 3 {
+                    0 => g.with_opcode_range(self.min, self.max),
+                    1 => g.with_min_opcodes(self.min).with_max_opcodes(self.max),
+                    _ => g.with_max_opcodes(self.max).with_min_opcodes(self.min),
+                },
+                1 => {
+                    if route % 2 == 0 {
+                        g.with_mutators(self.mutators())
+                    } else {
+                        let mut h = g.with_mutators(Vec::new());
+                        for m in self.mutators() {
+                            h = h.with_mutator(m);
+                        }
+                        h
+                    }
+                }
+                2 => g.with_unsafe_mutations(self.unsafe_m),
+                3 => g.with_ext_opcodes(self.ext),
+                4 => g.with_buffer_opcodes(self.buf),
+                // the builder clamps; out-of-range / NaN rates are part of C09's quantifier
+                5 => g.with_mutation_rate(f64::from_bits(self.rate_bits)),
+                _ => {
+                    if let Mode::Rand(s) = &self.mode {
+                        g.with_seed(*s)
+                    } else {
+                        g
+                    }
+                }
+            };
         }
         g
     }
@@ -349,7 +384,12 @@ pub fn sample_case(rng: &mut Rng, id: u64, profile: &str, unsafe_sel: &str) -> C
         k => RATES[(k as usize - 1) % RATES.len()].to_bits(),
     };
     let mode = if rng.coin() {
-        Mode::Rand(rng.next() % 1_000_000)
+        // seeds over the whole u64 range: mostly small, sometimes an edge, sometimes any 64-bit value
+        Mode::Rand(match rng.below(8) {
+            0 => [0u64, 1, u32::MAX as u64, 1 << 32, (1 << 63) - 1, 1 << 63, u64::MAX - 5, u64::MAX][rng.below(8) as usize],
+            1 => rng.next(),
+            _ => rng.next() % 1_000_000,
+        })
     } else {
         let len = match rng.below(6) {
             0 => 0,
@@ -483,6 +523,26 @@ fn arg_val<'a>(args: &'a [String], key: &str, default: &'a str) -> &'a str {
 }
 
 fn cmd_oracle(args: &[String]) {
+    if args.iter().any(|a| a == "--stdin") {
+        // one case line per input line (directed families built by check.py)
+        use std::io::BufRead;
+        let stdin = std::io::stdin();
+        for line in stdin.lock().lines() {
+            let line = line.unwrap();
+            let line = line.trim();
+            if line.is_empty() {
+                continue;
+            }
+            match Case::parse(line) {
+                Some(c) => match c.run() {
+                    Ok(out) => println!("oracle {} result=ok:{}", c.line(), hex(&out)),
+                    Err(e) => println!("oracle {} result={}", c.line(), e),
+                },
+                None => println!("oracle id=? result=bad-case-line"),
+            }
+        }
+        return;
+    }
     let n: u64 = arg_val(args, "--cases", "100").parse().unwrap();
     let seed: u64 = arg_val(args, "--seed", "1").parse().unwrap();
     let profile = arg_val(args, "--profile", "default");
